@@ -1,6 +1,8 @@
 import warnings
 from typing import List
 
+import numpy as np
+
 from classy_blocks.base.element import ElementBase
 from classy_blocks.base.exceptions import EdgeCreationError
 from classy_blocks.construct.curves.curve import CurveBase
@@ -28,6 +30,12 @@ class EdgeData(ElementBase):
     def representation(self) -> EdgeKindType:
         # what goes into blockMeshDict's edge definition
         return self.kind
+
+    def reverse(self):
+        """Call when the edge is to be traversed in the opposite direction
+        (its end points are swapped, e.g. Face.invert(), Operation.invert());
+        most definitions do not depend on direction"""
+        return self
 
 
 class Line(EdgeData):
@@ -104,8 +112,15 @@ class Angle(EdgeData):
 
     def mirror(self, normal, origin=None):
         """Axis is a direction: it is reflected but not displaced,
-        wherever the mirror plane is"""
+        wherever the mirror plane is. A reflection also reverses the sense of
+        rotation: the mirrored arc turns by the same angle about the opposite axis."""
         self.axis.mirror(normal, [0, 0, 0])
+        self.axis.scale(-1, [0, 0, 0])
+        return self
+
+    def reverse(self):
+        """The same arc, traversed from the other end, turns the other way"""
+        self.angle = -self.angle
         return self
 
     @property
@@ -196,6 +211,11 @@ class Spline(OnCurve):
     @property
     def representation(self) -> EdgeKindType:
         return self.kind
+
+    def reverse(self):
+        """Points are listed from the first to the second end point of the edge"""
+        self.curve.array.points = np.flip(self.curve.array.points, axis=0)
+        return self
 
 
 class PolyLine(Spline):
